@@ -5,17 +5,24 @@ Program recipe (plain JSON)
                                            them); explicit: every memref type carries its space, cast chains are written out
      "elt": 8|16|32, "shape": [n] | [n, m],               element width and the shape every op operand has
      "roots": [{"kind": "arg"|"alloc"|"glob"|"globu"|"const", "big": 0|1, "seed": int, "space": "L1"|"L3", "gg": 0|1, "dyn": bit mask,
-                "ispace": null|"L1"|"L3"}],
+                "ispace": null|"L1"|"L3", "glayout": null|layout number}],
                                            gg: every access path of a global takes its own memref.get_global
                                            dyn: (arg / alloc, not big) bit d set = dimension d is `?` in the types (no TSL casts on
                                            such a root); a dynamic alloc takes its sizes from index constants
+                                           glayout: (glob / globu, not big) the memref.global and its get_global already carry
+                                           this dense TSL layout (as after an earlier realize-memref-casts run); the initial
+                                           value is then the raw storage under that layout
                                            ispace: (arg, implicit mode) memory space written on this argument although the
                                            others have none: mixed public signatures
      "layouts": [{"split": [inner tile per dim], "perm": int, "gap": 0|1}],      pool of target layouts of the operand shape
      "epochs": [{"paths": [path per root], "stmts": [stmt]}],
-     "ret": [root ref], "vis": "public"|"none", "a2g": 0|1, "dead": 0|1, "plain": 0|1,
+     "ret": [root ref], "vis": "public"|"none", "a2g": 0|1, "dead": 0|1, "plain": 0|1, "bare_ok": 0|1,
      "trips": [[trip count per loop], [..]]}
-    path = {"sv": tile number 0..3 | "iv", "casts": [["ms", "L1"|"L3"] | ["lc", layout number | -1]], "def": "top"|"epoch"|"stmt"}
+    path = {"sv": tile number 0..3 | "iv", "casts": [["ms", "L1"|"L3"] | ["lc", layout number | -1]], "def": "top"|"epoch"|"stmt",
+            "base": null | n}      base (explicit mode): the casts are chained on the END of the path an earlier epoch used for this root
+                                   (n picks which), i.e. derived views of an existing cast value that are read and written later
+    bare_ok (explicit mode): a path without casts uses the bare root even if other epochs reach the root through explicit casts
+                                   (set-memory-space then decides per op whether an existing L1 cast may be shared)
     stmt = ["op", kind, [input refs], [output root refs]] | ["for", [stmt]]
            kind: "linalg_lib" | "linalg" | "dart_op" | "dart_sched" | "test"
            input ref: root number (read through the epoch's path A of that root) | ["alt", root number, variant] (read-only
@@ -178,7 +185,8 @@ def _path(draw, nlay, explicit):
                 casts.append(["ms", draw(st.sampled_from(["L1", "L1", "L3"]))])
             else:
                 casts.append(["lc", draw(st.integers(-1, nlay - 1))])
-    return dict(sv=sv, casts=casts, **{"def": draw(st.sampled_from(["top", "epoch", "epoch", "stmt", "stmt"]))})
+    return dict(sv=sv, casts=casts, base=draw(st.sampled_from([None, None, None, None, 0, 1])) if explicit else None,
+                **{"def": draw(st.sampled_from(["top", "epoch", "epoch", "stmt", "stmt"]))})
 
 
 @st.composite
@@ -250,7 +258,8 @@ def program(draw, tier="quick", mode=None):
     roots = [dict(kind=draw(st.sampled_from(kinds)), big=draw(st.sampled_from([0, 0, 1])), seed=draw(st.integers(0, 4000)),
                   space=draw(st.sampled_from(["L3", "L3", "L3", "L1"])), gg=draw(st.sampled_from([0, 0, 0, 1])),
                   dyn=draw(st.sampled_from([0] * 12 + [1, 2, 2, 3, 4, 5, 6, 6, 7])),
-                  ispace=draw(st.sampled_from([None, None, None, "L1", "L1", "L3"]))) for _ in range(nroots)]
+                  ispace=draw(st.sampled_from([None, None, None, "L1", "L1", "L3"])),
+                  glayout=draw(st.sampled_from([None, None, 0, 1, 2]))) for _ in range(nroots)]
     nlay = draw(st.integers(1, 3))
     layouts = [draw(layout_spec(len(shape))) for _ in range(nlay)]
     nep = draw(st.sampled_from([1, 1, 2, 2, 3]))
@@ -262,12 +271,42 @@ def program(draw, tier="quick", mode=None):
         else:
             stmts = draw(_stmts(nroots, 2 if tier == "thorough" else 1, 3))
         epochs.append(dict(paths=paths, stmts=stmts))
+    template = explicit and draw(st.integers(0, 5)) == 0
+    if template:
+        # an explicit L1 cast X of root 0 that an accelerator op uses, then views derived from X that are written through,
+        # then the bare root again: set-memory-space must not route the bare use through X's (stale) buffer
+        roots[0].update(kind=draw(st.sampled_from(["arg", "arg", "glob", "globu"])), big=0, dyn=0, space="L3", gg=0,
+                        glayout=draw(st.sampled_from([None, None, 0])))
+        acc = ["linalg_lib", "linalg", "dart_op"]
+        others = [j for j in range(1, nroots)]
+        def opnd():
+            return [draw(st.sampled_from(others))] if others and draw(st.booleans()) else []
+        k1 = draw(st.integers(0, nlay - 1))
+        dcasts = draw(st.sampled_from([[["lc", k1]], [["lc", k1]], [["lc", k1], ["lc", -1]], [["ms", "L3"], ["lc", k1]]]))
+        tp = lambda c, d, base=None: [dict(sv=0, casts=c, base=base, **{"def": d})] + [draw(_path(nlay, explicit)) for _ in range(nroots - 1)]  # noqa: E731
+        e0 = [["op", draw(st.sampled_from(acc)), [0], opnd()]]
+        if draw(st.booleans()):
+            e0.insert(0, ["op", draw(st.sampled_from(acc)), opnd(), [0]])
+        w = ["op", draw(st.sampled_from(acc + ["test", "dart_sched"])), opnd(), [0]]
+        e1 = [["for", [w]]] if draw(st.integers(0, 3)) == 0 else [w]
+        rd = ["op", draw(st.sampled_from(acc)), [0], opnd()]
+        e2 = [["for", [rd]]] if draw(st.integers(0, 3)) == 0 else [rd]
+        if draw(st.booleans()):
+            e2.append(["op", draw(st.sampled_from(acc)), opnd(), [0]])
+        epochs = [dict(paths=tp([["ms", "L1"]], draw(st.sampled_from(["top", "epoch"]))), stmts=e0),
+                  dict(paths=tp(dcasts, "epoch", 0), stmts=e1),
+                  dict(paths=tp([], "epoch"), stmts=e2)]
+        if draw(st.integers(0, 2)) == 0:
+            epochs.insert(2, dict(paths=tp(draw(st.sampled_from([[["lc", -1]], [["ms", "L3"]], [["lc", k1], ["ms", "L3"]]])), "epoch", 1),
+                                  stmts=[draw(st.sampled_from([rd, w]))]))
     nloops = sum(count_loops(e["stmts"]) for e in epochs)
     trips = [[draw(st.sampled_from([0, 1, 2, 3])) for _ in range(nloops)] for _ in range(2)]
     ret = draw(st.lists(st.integers(0, nroots - 1), max_size=2))
     return dict(mode=mode, elt=elt, shape=shape, roots=roots, layouts=layouts, epochs=epochs, ret=ret,
                 vis=draw(st.sampled_from(["public", "none"])), a2g=draw(st.sampled_from([0, 0, 1])) if not explicit else 0,
-                dead=draw(st.sampled_from([0, 0, 0, 1])), plain=draw(st.sampled_from([0, 0, 0, 0, 0, 1])), trips=trips)
+                dead=0 if template else draw(st.sampled_from([0, 0, 0, 1])),
+                plain=0 if template else draw(st.sampled_from([0, 0, 0, 0, 0, 1])),
+                bare_ok=1 if template else draw(st.sampled_from([0, 0, 1])), trips=trips)
 
 
 # ------------------------------------------------------------------------------------------------------------------
@@ -337,6 +376,16 @@ def build(r) -> Built:
         counter[0] += 1
         return f"%{p}{counter[0]}"
 
+    # roots whose type already carries a (dense) TSL layout
+    rlay: list = [None] * nroots
+    for i, rt in enumerate(roots):
+        if rt["kind"] in ("glob", "globu") and not rt.get("big") and rt.get("glayout") is not None and r["layouts"]:
+            spec = dict(r["layouts"][int(rt["glayout"]) % len(r["layouts"])], gap=0)
+            lr = layout_from_spec(shape, spec)
+            if not is_row_major(lr) or rt["glayout"] % 2 == 0:
+                rlay[i] = tsl_text(lr)
+    bare_ok = bool(r.get("bare_ok")) and explicit
+
     globals_txt: list[str] = []
     top: list[str] = []
     args: list[tuple[str, str]] = []
@@ -371,15 +420,17 @@ def build(r) -> Built:
             n = math.prod(rshape)
             if kind == "glob":
                 iv = dense_text(data_values(rt.get("seed", 0), n, elt), rshape) + f" : tensor<{'x'.join(map(str, rshape))}xi{elt}>"
-                globals_txt.append(f'  "memref.global"() <{{sym_name = "{gname}", type = {mtype(rshape, elt)}, initial_value = {iv}, sym_visibility = "private", constant, alignment = 64 : i64}}> : () -> ()')
+                globals_txt.append(f'  "memref.global"() <{{sym_name = "{gname}", type = {mtype(rshape, elt, rlay[i])}, initial_value = {iv}, sym_visibility = "private", constant, alignment = 64 : i64}}> : () -> ()')
             else:
-                globals_txt.append(f'  "memref.global"() <{{sym_name = "{gname}", type = {mtype(rshape, elt)}, initial_value, sym_visibility = "private", alignment = 64 : i64}}> : () -> ()')
+                globals_txt.append(f'  "memref.global"() <{{sym_name = "{gname}", type = {mtype(rshape, elt, rlay[i])}, initial_value, sym_visibility = "private", alignment = 64 : i64}}> : () -> ()')
             b.global_names.append(gname)
             if rt.get("gg"):
                 nm = None  # every access path takes its own memref.get_global
                 b.features.add("get_global-per-path")
             else:
-                top.append(f'    {nm} = "memref.get_global"() <{{name = @{gname}}}> : () -> {mtype(rshape, elt, None, sp)}')
+                top.append(f'    {nm} = "memref.get_global"() <{{name = @{gname}}}> : () -> {mtype(rshape, elt, rlay[i], sp)}')
+            if rlay[i]:
+                b.features.add("global-with-layout" + (":initialised" if kind == "glob" else ""))
         else:  # const
             sp = (rt.get("space") or "L1") if explicit else None
             nm = f"%K{i}"
@@ -409,17 +460,35 @@ def build(r) -> Built:
                 if casts_of(i, ep["paths"][i % len(ep["paths"])]):
                     needs_fresh[i] = True
 
-    def emit_path(i, path, out, pad, iv, force_full=False):
-        """Emit subview + casts of root i; returns (ssa, type text, number of casts, memory space, layout text)."""
+    def emit_path(i, path, out, pad, iv, force_full=False, start=None):
+        """Emit subview + casts of root i; returns (ssa, type text, number of casts, memory space, layout text).
+        start: chain the casts on this value (the end of an earlier epoch's path) instead of starting at the root."""
+        if start is not None:
+            cur, cur_t, nc, sp, layout = start
+            for c in derived_casts(i, path):
+                if c[0] == "ms":
+                    nsp, nl, opn = c[1], layout, "memref.memory_space_cast"
+                else:
+                    nl = None if c[1] < 0 else lay_texts[c[1] % len(lay_texts)]
+                    nsp, opn = sp, "snax.layout_cast"
+                new_t = mtype(shape, elt, nl, nsp)
+                new = fresh("c")
+                out.append(f'{pad}{new} = "{opn}"({cur}) {{"c12.x"}} : ({cur_t}) -> {new_t}')
+                cur, cur_t, layout, sp = new, new_t, nl, nsp
+                nc += 1
+                b.features.add("cast:" + c[0])
+            b.features.add("derived-path")
+            return cur, cur_t, nc, sp, layout
         nm, rshape, sp = root_val[i]
         layout = None
         if nm is None:
             nm = fresh("gg")
-            out.append(f'{pad}{nm} = "memref.get_global"() <{{name = @g{i}}}> : () -> {mtype(rshape, elt, None, sp)}')
+            out.append(f'{pad}{nm} = "memref.get_global"() <{{name = @g{i}}}> : () -> {mtype(rshape, elt, rlay[i], sp)}')
         cur = nm
+        layout = rlay[i]
         casts = casts_of(i, path)
         oshape = dshape(i, shape)
-        if not roots[i].get("big") and (force_full or (needs_fresh[i] and not casts)):
+        if not roots[i].get("big") and rlay[i] is None and (force_full or (needs_fresh[i] and not casts and not bare_ok)):
             strides_txt = ", ".join(str(math.prod(rshape[d + 1:])) for d in range(rank))
             layout = f"strided<[{strides_txt}], offset: 0>"
             new = fresh("s")
@@ -494,11 +563,47 @@ def build(r) -> Built:
         for c in cs:
             if c[0] == "ms":
                 sp = c[1]
-        bare = not roots[i].get("big") and root_val[i][0] is not None and not cs and not needs_fresh[i]
+        bare = not roots[i].get("big") and root_val[i][0] is not None and not cs and (not needs_fresh[i] or bare_ok or rlay[i] is not None)
         life = "prog" if bare else ("stmt" if path.get("def") == "stmt" else "epoch")
         return dict(space=sp, bare=bare, life=life)
 
-    pinfo = [[path_info(i, ep["paths"][i % len(ep["paths"])]) for i in range(nroots)] for ep in r["epochs"]]
+    def derived_casts(i, path):
+        return casts_of(i, path) or [["lc", 0]]
+
+    # derive_from[e][i]: the earlier epoch whose path end the path of (e, i) is chained on, or None. Only ends that are cast
+    # results, exist (root used in that epoch) and are defined at the function's top level qualify.
+    used_e = [used_roots(ep["stmts"]) for ep in r["epochs"]]
+    derive_from: list = []
+    for e, ep in enumerate(r["epochs"]):
+        row = []
+        for i in range(nroots):
+            path = ep["paths"][i % len(ep["paths"])]
+            src = None
+            if explicit and path.get("base") is not None and not is_dyn(i) and i in used_e[e]:
+                cands = []
+                for e2 in range(e):
+                    p2 = r["epochs"][e2]["paths"][i % len(r["epochs"][e2]["paths"])]
+                    if i in used_e[e2] and (derive_from[e2][i] is not None or (casts_of(i, p2) and p2.get("def") != "stmt")):
+                        cands.append(e2)
+                if cands:
+                    src = cands[int(path["base"]) % len(cands)]
+            row.append(src)
+        derive_from.append(row)
+
+    pinfo: list = []
+    for e, ep in enumerate(r["epochs"]):
+        row = []
+        for i in range(nroots):
+            path = ep["paths"][i % len(ep["paths"])]
+            if derive_from[e][i] is None:
+                row.append(path_info(i, path))
+            else:
+                sp = pinfo[derive_from[e][i]][i]["space"]
+                for c in derived_casts(i, path):
+                    if c[0] == "ms":
+                        sp = c[1]
+                row.append(dict(space=sp, bare=False, life="epoch"))
+        pinfo.append(row)
 
     def coerce(kind, spaces):
         # set-memory-space gives linalg.generic / dart.operation operands an L1 cast and leaves other ops alone. To keep the
@@ -526,11 +631,11 @@ def build(r) -> Built:
         how = ["sub", "chain", "bare"][variant % 3]
         v2 = variant // 3
         k = v2 // 4
-        if how == "bare" and not (explicit and needs_fresh[i] and not roots[i].get("big")):
+        if how == "bare" and not (explicit and needs_fresh[i] and not roots[i].get("big") and not info["bare"]):
             how = "sub"
         if how == "chain" and not (explicit and info["life"] == "epoch"):
             how = "sub"
-        if how == "sub" and is_dyn(i):
+        if how == "sub" and (is_dyn(i) or rlay[i] is not None):
             how = "chain" if explicit and info["life"] == "epoch" else None
         if how is None:
             return None
@@ -610,8 +715,8 @@ def build(r) -> Built:
             nm, rshape, sp = root_val[i]
             if nm is None:
                 nm = fresh("gg")
-                out.append(f'{pad}{nm} = "memref.get_global"() <{{name = @g{i}}}> : () -> {mtype(rshape, elt, None, sp)}')
-            return nm, mtype(rshape, elt, None, sp), 0, sp, None
+                out.append(f'{pad}{nm} = "memref.get_global"() <{{name = @g{i}}}> : () -> {mtype(rshape, elt, rlay[i], sp)}')
+            return nm, mtype(rshape, elt, rlay[i], sp), 0, sp, rlay[i]
         if plan["how"] == "sub":
             return emit_path(i, dict(sv=path.get("sv", 0), casts=plan["casts"]), out, pad, iv, force_full=True)
         cur, cur_t, nc, sp, layout = a_val
@@ -722,7 +827,7 @@ def build(r) -> Built:
             local = dict(vals)
             if not stmt_def_done:
                 # paths with def = "stmt": (re)defined in front of this op / at the top of this loop's body
-                need = sorted(i for i in used_roots([s]) if paths[i % len(paths)].get("def") == "stmt")
+                need = sorted(i for i in used_roots([s]) if paths[i % len(paths)].get("def") == "stmt" and derive_from[e][i] is None)
             else:
                 need = []
             if s[0] == "op":
@@ -751,9 +856,10 @@ def build(r) -> Built:
 
     body: list[str] = []
     top_paths: list[str] = []
+    end_vals: list = []
     if r.get("dead") and explicit:
         nm, rshape, sp = root_val[0]
-        if not roots[0].get("big") and nm is not None and not is_dyn(0):
+        if not roots[0].get("big") and nm is not None and not is_dyn(0) and rlay[0] is None:
             t0 = mtype(shape, elt, None, sp)
             d1 = fresh("d")
             top_paths.append(f'    {d1} = "memref.memory_space_cast"({nm}) {{"c12.x"}} : ({t0}) -> {mtype(shape, elt, None, "L1")}')
@@ -766,12 +872,16 @@ def build(r) -> Built:
         for i in sorted(used):
             p = paths[i % len(paths)]
             d = p.get("def", "epoch")
+            if derive_from[e_][i] is not None:
+                vals[i] = emit_path(i, p, body, "    ", None, start=end_vals[derive_from[e_][i]][i])
+                continue
             if d == "top":
                 vals[i] = emit_path(i, p, top_paths, "    ", None)
             elif d == "epoch":
                 vals[i] = emit_path(i, p, body, "    ", None)
             else:
                 vals[i] = None  # defined per statement
+        end_vals.append(dict(vals))
         emit_stmts(ep["stmts"], vals, paths, body, 2, None, False, e_)
 
     for a_ssa, g in alts:
@@ -792,10 +902,10 @@ def build(r) -> Built:
         nm, rshape, sp = root_val[v % nroots]
         if nm is None:
             nm = fresh("gg")
-            body.append(f'    {nm} = "memref.get_global"() <{{name = @g{v % nroots}}}> : () -> {mtype(rshape, elt, None, sp)}')
-        rets.append((nm, rshape, sp))
-    ret_names = ", ".join(v for v, _, _ in rets)
-    ret_types = ", ".join(mtype(s, elt, None, sp) for _, s, sp in rets)
+            body.append(f'    {nm} = "memref.get_global"() <{{name = @g{v % nroots}}}> : () -> {mtype(rshape, elt, rlay[v % nroots], sp)}')
+        rets.append((nm, rshape, sp, rlay[v % nroots]))
+    ret_names = ", ".join(v for v, _, _, _ in rets)
+    ret_types = ", ".join(mtype(s, elt, ly, sp) for _, s, sp, ly in rets)
     all_args = args + [(a, "index") for a in loop_args]
     # argument order: memref arguments first, then loop bounds
     b.arg_spec = [a for a in b.arg_spec if a[0] == "mem"] + [a for a in b.arg_spec if a[0] == "loop"]
